@@ -155,6 +155,12 @@ namespace c11
     return os.str();
   }
 
+  // ---------------------------------------------------------------------------------------------- phase marker
+  enum Phase { PH_NONE = 0, PH_ROOT = 1, PH_SCAN = 2, PH_LINK = 3, PH_WRITE = 4, PH_CANON = 5, PH_DESTROY = 6 };
+  inline volatile int*& phase_ptr() { static int local = 0; static volatile int* p = &local; return p; }
+  inline int& phase_base() { static int b = 0; return b; }          // 0 = first parse of a case, 10 = re-parse of the written text
+  inline void set_phase(int ph) { *phase_ptr() = phase_base() + ph; }
+
   // ---------------------------------------------------------------------------------------------- typed parse
   template<typename Mesh_>
   void parse_typed(MeshFileReader& reader, Parsed& out, bool want_written, bool want_canon)
@@ -162,15 +168,23 @@ namespace c11
     MeshAtlas<Mesh_> atlas;
     RootMeshNode<Mesh_> node(nullptr, &atlas);
     PartitionSet ps;
-    reader.parse(node, atlas, &ps);
+    // exactly what MeshFileReader::parse(node, atlas, part_set) does, with a phase marker in between so that a
+    // harness can tell in which stage a child process died without relying on the sanitizer's wording
+    MeshNodeLinker<Mesh_> linker(node, atlas);
+    set_phase(PH_SCAN);
+    reader.parse(linker, node, atlas, &ps);
+    set_phase(PH_LINK);
+    linker.execute();
     if(want_written)
     {
+      set_phase(PH_WRITE);
       std::ostringstream os;
       MeshFileWriter writer(os);
       writer.write(&node, &atlas, &ps);
       out.written = os.str();
     }
-    if(want_canon) out.canon = canon(node, atlas, ps);
+    if(want_canon) { set_phase(PH_CANON); out.canon = canon(node, atlas, ps); }
+    set_phase(PH_DESTROY);
   }
 
   /// the application-level entry: text -> outcome
@@ -185,6 +199,7 @@ namespace c11
       MeshFileReader reader;
       for(auto* c : companions) { more.emplace_back(new std::istringstream(*c)); reader.add_stream(*more.back()); }
       reader.add_stream(iss);
+      set_phase(PH_ROOT);
       reader.read_root_markup();
       std::string type = std::string(reader.get_meshtype_string());
       if(type.empty()) type = default_type;
